@@ -246,6 +246,9 @@ def h_router(sym):
     x = [sym.int(f'x{i}', 0, 255) for i in range(N)]
     regat = {f: (sym.int(f'reg_{f}', 0, N) if f in late else 0) for f in REG}    # receiver's first call precedes arrival #regat
     take_at = sym.int('take_at', 0, N) if late else N      # an extra consumer call for REG[0] after arrival #take_at
+    # the router task is stepped by re-entering run(), which forgets its locals: frames that arrive back to back (no step
+    # between them) are handled inside one activation of the loop, locals included
+    burst = [True if (sym.B.get('bursts') and i < N - 1 and sym.bool(f'burst{i}')) else False for i in range(N)]
     sym.apply_known()
     got = {f: [] for f in REG}
     registered = set()
@@ -258,6 +261,9 @@ def h_router(sym):
             break
         sym.assume(any(fv[i] == a for a in allowed))
         s.feed(E.ref_tcp_frame(T['STM32'], HOST, fv[i], i % 2, [i, x[i]], ver[i]))
+        if burst[i]:
+            sym.goal('back-to-back')
+            continue
         assert step(r) == 'yield', 'router thread ended'
         assert s.pending() == 0
         if take_at == i and REG[0] in registered:
@@ -538,6 +544,10 @@ HARNESSES = [
     Harness('router[all functions]', h_router, quick=dict(n=2, funcs=ALLF, receivers=('CRTP', 'APP'), versions=True),
             thorough=dict(n=3, funcs=ALLF, receivers=('CRTP', 'APP', 'CONSOLE'), versions=True), timeout=(280, 1500),
             goals=RG + ('bad-version-between',)),
+    Harness('router[back-to-back frames]', h_router, quick=dict(n=3, funcs=('CRTP', 'APP', 'CONSOLE'), receivers=('CRTP', 'APP'), versions=True, bursts=True),
+            thorough=dict(n=4, funcs=('CRTP', 'APP', 'CONSOLE'), receivers=('CRTP', 'APP'), versions=True, bursts=True), timeout=(280, 1500),
+            goals=RG + ('bad-version-between', 'back-to-back'),
+            note='several frames handled inside one activation of CPXRouter.run (state kept in its locals is in scope)'),
     Harness('router[3 packets]', h_router, quick=dict(n=3, funcs=('CONSOLE', 'CRTP', 'APP', 'BOOTLOADER'), receivers=('CRTP', 'APP')),
             thorough=dict(n=4, funcs=('CONSOLE', 'CRTP', 'APP', 'BOOTLOADER'), receivers=('CRTP', 'APP')), timeout=(280, 1500), goals=RG),
     Harness('router[late receiver]', h_router,
